@@ -296,6 +296,22 @@ func c10IncludeDir(ctx *core.Ctx, cc *CC) {
 							ok = true
 						}
 					}
+					// … on every alternative: a path that is, on some branch, resolved
+					// another way (against the working directory, the root) is not
+					// "relative to the including file"
+					if ph, isPhi := ssax.Strip(a).(*ssa.Phi); isPhi && ok {
+						for _, e := range ph.Edges {
+							any := false
+							for _, d := range dirs {
+								if dependsOn(e, d, 0) {
+									any = true
+								}
+							}
+							if !any {
+								ok = false
+							}
+						}
+					}
 				}
 				ctx.Check(ok, "C10.R11", QName(caller)+sprintf(" › include #%d is opened relative to the including file", n), cc.IPos(c.Instr), "a path argument of the recursion is built from filepath.Dir of the current file",
 					"no path argument of the recursive parse depends on the directory of the file being parsed (the root's directory is handed down instead): an included file in another directory that includes a sibling by relative path is rejected with 'no such file' — or a same-named file next to the root is parsed silently in its place")
